@@ -16,6 +16,8 @@ pub fn dispatch(cmd: &str, c: &Value) -> Value {
         "open_prefix" => open_prefix(c),
         "archive_fault" => archive_fault(c),
         "fasta_parse" => fasta_parse(c),
+        "lz_estimate" => lz_estimate(c),
+        "push_priority" => push_priority(c),
         "queue_seq" => queue_seq(c),
         "queue_conc" => queue_conc(c),
         "catalogue" => catalogue(c),
@@ -606,4 +608,32 @@ pub fn split_at(c: &Value) -> Value {
     let (l, r) = ragc_core::agc_compressor::verif_hooks::split_segment_at_position(&s, p, k);
     let ok = l.len() >= k && r.len() >= k && [&l[..], &r[k..]].concat() == s;
     json!({"ok": ok, "left": l, "right": r})
+}
+
+// ---------------------------------------------------------------- C18 overflow sites
+pub fn lz_estimate(c: &Value) -> Value {
+    use ragc_core::lz_diff::LZDiff;
+    let r = bytes(&c["ref"]); let t = bytes(&c["tgt"]); let mm = c["mm"].as_u64().unwrap() as u32;
+    let mut lz = LZDiff::new(mm);
+    lz.prepare(&r);
+    let est = lz.estimate(&t, u32::MAX);
+    let a = lz.get_coding_cost_vector(&t, true); let b = lz.get_coding_cost_vector(&t, false);
+    json!({ "est": est, "cv": [a, b] })
+}
+
+pub fn push_priority(c: &Value) -> Value {
+    use ragc_core::{StreamingQueueCompressor, StreamingQueueConfig};
+    let path = tmp_path("c18");
+    let mut cfg = StreamingQueueConfig::default();
+    cfg.num_threads = c["threads"].as_u64().unwrap_or(1) as usize;
+    cfg.verbosity = 0; cfg.pack_size = 2; cfg.concatenated_genomes = true;
+    let mut spl = ahash::AHashSet::new(); spl.insert(12345u64);
+    let mut comp = StreamingQueueCompressor::with_splitters(&path, cfg, spl).unwrap();
+    let earlier = c["earlier_samples"].as_u64().unwrap_or(0);
+    let seq: Vec<u8> = (0..200).map(|i| (i % 4) as u8).collect();
+    for s in 0..earlier.min(3) { comp.push(format!("e{}#1", s), format!("e{}#1#c", s), seq.clone()).unwrap(); }
+    for i in 0..3 { comp.push("s1#1".to_string(), format!("s1#1#c{}", i), seq.clone()).unwrap(); }
+    let r = comp.finalize();
+    let _ = std::fs::remove_file(&path);
+    json!({ "ok": r.is_ok() })
 }
